@@ -25,7 +25,8 @@ RULE = ("embedded: ytk, ptk, cidar, ecoflex, plant - every item (exhaustive, 362
         "plasmids, junk files; absent keys include sub-directory names, junk stems, unsupported-extension stems, keys with path "
         "separators and parent references; embedded registries re-used (same and new instance) after a first load aborted by an exception injected at a random record; combinations: sequences of 1..5 members drawn with repetition from embedded registries, generated "
         "directories sharing ids with them, and nested combinations of these. Non-trivial = a registry with >= 1 key whose every item was looked up, or a combination with a shared id; "
-        "distinct = distinct registry contents.")
+        "distinct = distinct registry contents."
+        " Second session: files under a supported extension in another letter case (optional keys: listed or not, but coherent), file names of present stems as absent keys, Item.record read for every item, directory members judged against the files written, twin directories with the same file names, a cassette label repeated on its feature.")
 ASSUMPTIONS = ["directory entries that are typed GenBank plasmids have pairwise distinct stems", "the eLabFTW (network) registry is out of scope"]
 FLOORS = {"c20_regrown_members": 10, "c20_aborted_loads": 4, "c20_items_checked": 400, "c20_absent_keys_checked": 300, "c20_directories": 40, "c20_combinations": 30, "c20_shared_id_checks": 20, "c20_embedded_registries": 5}
 MUST_REACH = ["EmbeddedRegistry.__iter__", "EmbeddedRegistry.__len__", "FilesystemRegistry.__getitem__", "CombinedRegistry.add_registry", "find_resistance"]
